@@ -316,3 +316,9 @@ Definition make_message (nargs : Z) (format fmt_result : list byte) : list byte 
 Definition api_bad (c : api_case) : bool :=
   let '(sev, nargs, format, fmt_result, osev, obs) := c in
   negb ((sev =? osev) && bytes_eqb obs (make_message nargs format fmt_result)).
+
+(** * FetchEntriesFromFiles from a time mark on
+    (the messages logged after the mark, what the fetch returned put back in
+    chronological order): exactly those, whatever file they are in. *)
+Definition fetch_case := (list Z * list Z)%type.
+Definition fetch_bad (c : fetch_case) : bool := negb (list_eqb Z.eqb (fst c) (snd c)).
